@@ -202,12 +202,19 @@ def _group1_chunk(fam, kfs):
                 cnt['inconclusive'] += 1
                 continue
             try:
-                got = native_eval(code, env)
                 exp = e3.ref_eval(ref, env)
-                bad = not close(got, exp)
+            except ZeroDivisionError:
+                exp = ZeroDivisionError
+            except Exception:
+                conds.append((name, 'spurious', 'the reference evaluator cannot evaluate the model (text against number comparison)'))
+                cnt['inconclusive'] += 1
+                continue
+            try:
+                got = native_eval(code, env)
+                bad = exp is ZeroDivisionError or not close(got, exp)
                 detail = f'{formula}: emitted `{code}` gives {got!r}, Excel grouping gives {exp!r} for {env}'
             except ZeroDivisionError:
-                bad, detail = False, 'division by zero in replay'
+                bad, detail = exp is not ZeroDivisionError, f'{formula}: emitted `{code}` divides by zero for {env}, Excel grouping gives {exp!r}'
             except Exception as ex:
                 bad, detail = True, f'{formula}: emitted `{code}` raises {type(ex).__name__}: {ex} for {env}'
             if not bad:
